@@ -21,6 +21,17 @@ pub struct Case {
     /// (position in the base sequence before which the line is inserted, line); positions ascending
     pub noise: Vec<(usize, String)>,
     pub joined_noise: Vec<(usize, String)>,
+    /// the admission slice: a free-form table definition (C01's generator) whose lines are sorted into base / noise by the reference extraction model
+    #[serde(default)]
+    pub free: Option<Free>,
+}
+
+#[derive(Clone, Debug, Serialize, Deserialize)]
+pub struct Free {
+    pub def: TableDef,
+    pub query: String,
+    pub base: Vec<String>,
+    pub noise: Vec<(usize, String)>,
 }
 
 pub struct C06;
@@ -100,6 +111,128 @@ pub fn per_line_transcript(p: &Prepared, lines: &[String]) -> Result<(Vec<String
     Ok((out, errored))
 }
 
+/// Free-form definitions (several patterns, split / match modes, inline patterns, arrays, multi-group timestamps, NOT NULL / DEFAULT /
+/// TRIM in any combination): the reference extraction model decides which generated lines are admitted by the property's rule.
+fn gen_free(t: &mut Tape, ctx: &Ctx) -> Option<Free> {
+    use crate::extract_model::*;
+    let c = crate::props::c01::C01.generate(t, ctx);
+    let compiled = compile(&c.def)?;
+    let mut base = Vec::new();
+    let mut rejected = Vec::new();
+    let mut candidates = c.lines.clone();
+    // near-misses of the generated lines and plain non-matching text
+    for l in &c.lines {
+        if t.chance(1, 2) && !l.is_empty() {
+            let cut = t.draw(l.len());
+            if l.is_char_boundary(cut) {
+                candidates.push(l[..cut].to_string());
+            }
+        }
+        if t.chance(1, 3) {
+            candidates.push(l.chars().map(|ch| if ch.is_ascii_digit() { 'x' } else { ch }).collect());
+        }
+        if t.chance(1, 3) {
+            candidates.push(l.replace("jan", "jxn").replace("FEB", "FEX").replace("June", "Juno").replace("sept", "sopt").replace(" 1 ", " 13 ").replace(" 12 ", " 0 "));
+        }
+    }
+    for extra in ["", "noise", "   ", "no match here", "-", "{}"] {
+        if t.chance(1, 3) {
+            candidates.push(extra.to_string());
+        }
+    }
+    for l in candidates {
+        if l.contains('\n') || l.contains('\r') {
+            continue;
+        }
+        match model_admitted(&model_extract(&compiled, &l)) {
+            Some(true) => base.push(l),
+            Some(false) => rejected.push(l),
+            None => {}
+        }
+    }
+    let mut noise: Vec<(usize, String)> = Vec::new();
+    for l in rejected {
+        noise.push((t.draw(base.len() + 1), l));
+    }
+    noise.sort_by_key(|x| x.0);
+    let first = c.def.column_names().first().cloned().unwrap_or_else(|| "c0".to_string());
+    let query = match t.draw(6) {
+        0 => "SELECT * FROM t".to_string(),
+        1 => "SELECT COUNT(*) AS n FROM t".to_string(),
+        2 => "SELECT DISTINCT * FROM t".to_string(),
+        3 => format!("SELECT * FROM t LIMIT {}", 1 + t.draw(4)),
+        4 => format!("SELECT {0}, COUNT(*) AS n FROM t GROUP BY {0}", first),
+        _ => format!("SELECT COUNT(*) AS n, COUNT({}) AS m FROM t", first),
+    };
+    Some(Free { def: c.def, query, base, noise })
+}
+
+fn check_free(f: &Free, ctx: &Ctx, obs: &mut Obs) -> Result<(), Failure> {
+    obs.label("free-form-table");
+    let defs = f.def.text();
+    let tables = build_tables(&defs).map_err(|e| Failure::new("definition-rejected", format!("{}: {}", defs, e)))?;
+    let def = tables.get("t").ok_or_else(|| Failure::new("definition-lost", defs.clone()))?;
+    let statement = parse_statement(&f.query).map_err(|e| Failure::new("query-rejected", format!("`{}`: {}", f.query, e)))?;
+    let context = format!("query: {}\n  table: {}\n  base: {:?}\n  noise (position, line): {:?}", f.query, defs, f.base, f.noise);
+    let has_not_null = f.def.entries.iter().any(|e| matches!(e, Entry::Column { modifier: Some(Modifier::NotNull), .. }));
+    let has_default = f.def.entries.iter().any(|e| matches!(e, Entry::Column { modifier: Some(Modifier::Default(_)), .. }));
+    if has_not_null {
+        obs.label("free: NOT NULL column");
+    }
+    if has_default {
+        obs.label("free: DEFAULT column");
+    }
+    if has_not_null && has_default {
+        obs.label("free: NOT NULL + DEFAULT");
+    }
+    // (i) the admission rule itself, line by line
+    for (_, l) in &f.noise {
+        obs.inner += 1;
+        let row = crate::run::catch(|| def.extract(l)).map_err(|p| Failure::new(format!("panic: {}", crate::run::panic_class(&p)), format!("extract panicked on {:?}: {}\n  {}", l, p, context)))?;
+        if row.any_result() {
+            return Err(Failure::new(
+                format!("noise-admitted: {}", if has_not_null { "table with a NOT NULL column" } else { "no column has a value" }),
+                format!("the line {:?} becomes the row {:?} although the admission rule rejects it\n  {}", l, row.columns, context),
+            ));
+        }
+    }
+    for l in &f.base {
+        obs.inner += 1;
+        let row = crate::run::catch(|| def.extract(l)).map_err(|p| Failure::new(format!("panic: {}", crate::run::panic_class(&p)), format!("extract panicked on {:?}: {}\n  {}", l, p, context)))?;
+        if !row.any_result() {
+            return Err(Failure::new("admitted-line-dropped", format!("the line {:?} yields no row although a column has a value and every NOT NULL column is non-NULL\n  {}", l, context)));
+        }
+    }
+    // (ii) the consequence: output unchanged by the noise
+    let inside = f.noise.iter().any(|(p, _)| *p > 0 && *p < f.base.len());
+    if inside {
+        obs.label("noise-inside");
+    }
+    obs.label("stateful");
+    obs.nontrivial = inside && !f.base.is_empty();
+    let noisy = interleave(&f.base, &f.noise);
+    let fa = scratch_files(ctx, "c06fa", &[lines_to_bytes(&f.base)]);
+    let fb = scratch_files(ctx, "c06fb", &[lines_to_bytes(&noisy)]);
+    let a = run_batch(&tables, &statement, &fa, RunOptions::default()).map_err(|p| Failure::new(format!("panic: {}", crate::run::panic_class(&p)), format!("panicked (without noise): {}\n  {}", p, context)))?;
+    let b = run_batch(&tables, &statement, &fb, RunOptions::default()).map_err(|p| Failure::new(format!("panic: {}", crate::run::panic_class(&p)), format!("panicked (with noise): {}\n  {}", p, context)))?;
+    if a.lines != b.lines || a.result.is_err() != b.result.is_err() {
+        return Err(Failure::new(
+            "batch-output-differs: free-form table",
+            format!("batch output changes when non-admitted lines are inserted\n  without: {:?} {:?}\n  with:    {:?} {:?}\n  {}", a.lines, a.result, b.lines, b.result, context),
+        ));
+    }
+    let p = Prepared { tables, statement, text: f.query.clone(), defs };
+    let ta = per_line_transcript(&p, &f.base).map_err(|e| Failure::new(format!("panic: {}", crate::run::panic_class(&e)), format!("per-line path panicked: {}\n  {}", e, context)))?;
+    let tb = per_line_transcript(&p, &noisy).map_err(|e| Failure::new(format!("panic: {}", crate::run::panic_class(&e)), format!("per-line path panicked (with noise): {}\n  {}", e, context)))?;
+    if ta != tb {
+        return Err(Failure::new(
+            "per-line-output-differs: free-form table",
+            format!("per-line (follow path) results change when non-admitted lines are inserted\n  without: {:?}\n  with:    {:?}\n  {}", ta, tb, context),
+        ));
+    }
+    Ok(())
+}
+
 impl Property for C06 {
     type Case = Case;
 
@@ -111,6 +244,9 @@ impl Property for C06 {
         "a statement of every kind (plain, DISTINCT, LIMIT n, aggregate +- HAVING, join) over a generated table (JSON or regex flavour, optional NOT NULL column) x base lines x noise lines that are \
          non-admitted by construction (text matching no pattern, empty line, near-miss, JSON with only nulls / wrong-typed leaves / missing NOT NULL field) x insertion positions, on the queried input \
          and on the joined file. Oracle (metamorphic): the captured batch output (FileExecutor, JSON) and the per-line (follow path) transcript are identical with and without the noise. \
+         A quarter of the cases use a free-form definition instead (C01's generator: several patterns, split / match modes, inline patterns, arrays, multi-group timestamps, \
+         NOT NULL / DEFAULT / TRIM in any combination): the reference extraction model sorts generated lines and their near-misses into admitted and non-admitted by the property's rule, the implementation must agree \
+         line by line (both directions), and SELECT * / DISTINCT / LIMIT / COUNT / GROUP BY output must not change when the non-admitted ones are interleaved. \
          Non-trivial: >= 1 noise line strictly between two base lines, >= 1 base line after the last noise line, and the statement keeps state (DISTINCT, LIMIT, aggregate or join); distinct by case."
             .to_string()
     }
@@ -127,11 +263,11 @@ impl Property for C06 {
     }
 
     fn tape_len(&self) -> usize {
-        900
+        1800
     }
 
     fn label_floors(&self) -> Vec<(&'static str, f64)> {
-        vec![("noise-inside", 0.3), ("stateful", 0.4)]
+        vec![("noise-inside", 0.3), ("stateful", 0.4), ("free-form-table", 0.1), ("free: NOT NULL + DEFAULT", 0.005)]
     }
 
     fn generate(&self, t: &mut Tape, ctx: &Ctx) -> Case {
@@ -165,10 +301,17 @@ impl Property for C06 {
         if ctx.excluded("c07_limit_zero") && query.limit == Some(0) {
             query.limit = Some(1);
         }
-        Case { table: g.table, joined: g.joined, query, base, joined_base, noise, joined_noise }
+        let mut free = None;
+        if t.chance(1, 4) {
+            free = gen_free(t, ctx);
+        }
+        Case { table: g.table, joined: g.joined, query, base, joined_base, noise, joined_noise, free }
     }
 
     fn check(&self, case: &Case, ctx: &Ctx, obs: &mut Obs) -> Result<(), Failure> {
+        if let Some(f) = &case.free {
+            return check_free(f, ctx, obs);
+        }
         let noisy = interleave(&case.base, &case.noise);
         let joined_noisy = interleave(&case.joined_base, &case.joined_noise);
         let clean = prepare(ctx, &case.table, case.joined.as_ref(), &case.query, &case.joined_base, "c06a")?;
